@@ -296,3 +296,89 @@ def _is5060(pm, v):
     spd = v["spd"][0] / v["spd"][1]
     trk = v["trk"][0] / v["trk"][1]
     return enc.res(pm.bds.is50or60(hx(v), spd, trk, 0))
+
+
+# ---- common helpers (C14, C15) and tell ----
+def _bitstr(v):
+    return "".join(str(b) for b in v["bits"])
+
+
+@reg("common.df")
+def _cdf(pm, v):
+    return enc.res(pm.common.df(hx(v)))
+
+
+@reg("common.typecode")
+def _ctc(pm, v):
+    return enc.res(pm.common.typecode(hx(v)))
+
+
+@reg("common.hex2bin")
+def _h2b(pm, v):
+    return enc.res(pm.common.hex2bin(hx(v)))
+
+
+@reg("common.data")
+def _cdata(pm, v):
+    return enc.res(pm.common.data(enc.untext(v["text"])))
+
+
+@reg("common.allzeros")
+def _caz(pm, v):
+    return enc.res(pm.common.allzeros(hx(v)))
+
+
+@reg("common.bin2int")
+def _b2i(pm, v):
+    return enc.res(pm.common.bin2int(_bitstr(v)))
+
+
+@reg("common.bin2hex")
+def _b2h(pm, v):
+    return enc.res(pm.common.bin2hex(_bitstr(v)))
+
+
+@reg("common.hex2int")
+def _h2i(pm, v):
+    return enc.res(pm.common.hex2int(enc.untext(v["text"])))
+
+
+@reg("common.floor")
+def _cfloor(pm, v):
+    return enc.res(pm.common.floor(v["num"] / v["den"]))
+
+
+@reg("common.gray2alt")
+def _g2a(pm, v):
+    return enc.res(pm.common.gray2alt(format(v["code"], "011b")))
+
+
+@reg("common.wrongstatus")
+def _cws(pm, v):
+    d = pm.common.hex2bin(pm.common.data(hx(v)))
+    return enc.res(pm.common.wrongstatus(d, v["sb"], v["msb"], v["lsb"]))
+
+
+@reg("common.is_icao_assigned")
+def _cia(pm, v):
+    return enc.res(pm.common.is_icao_assigned("%06X" % v["addr"] if v.get("cs", 0) == 0 else "%06x" % v["addr"]))
+
+
+@reg("common.icao")
+def _cicao(pm, v):
+    return enc.res(pm.common.icao(hx(v)))
+
+
+@reg("common.crc")
+def _ccrc(pm, v):
+    return enc.res(pm.common.crc(hx(v), bool(v["enc"])))
+
+
+@reg("tell")
+def _tell(pm, v):
+    import contextlib
+    import io
+    buf = io.StringIO()
+    with contextlib.redirect_stdout(buf):
+        r = pm.tell(hx(v))
+    return enc.res(r)
